@@ -34,11 +34,34 @@ pub enum Tool {
     Read,
     Ls,
     Grep,
+    /// checkpoint envelope: create a checkpoint over this run's own pre-seeded files
+    CkptCreate,
+    /// checkpoint envelope: rewind to a checkpoint the harness prepared for this session (thread-less
+    /// sessions only: a checkpoint belongs to the session that made it)
+    CkptRewind,
 }
+
+const CKPT_FILES: usize = 3;
+const CKPT_FILE_BYTES: usize = 192 * 1024;
 
 impl Tool {
     fn mutating(&self) -> bool {
+        matches!(self, Tool::Bash { .. } | Tool::Write | Tool::Patch | Tool::CkptCreate | Tool::CkptRewind)
+    }
+    /// mutating *tool calls* (the side-effects clause is about tools; checkpoint envelopes are not tools)
+    fn yields_side_effects(&self) -> bool {
         matches!(self, Tool::Bash { .. } | Tool::Write | Tool::Patch)
+    }
+    fn ckpt_files(tok: &str, rewind: bool) -> Vec<String> {
+        (0..CKPT_FILES).map(|i| format!("{}{tok}_{i}.bin", if rewind { "rw" } else { "ck" })).collect()
+    }
+    /// the input string that makes a run execute this tool / checkpoint command
+    fn envelope(&self, tok: &str, trace: &str, ckpt_id: Option<&str>) -> String {
+        match self {
+            Tool::CkptCreate => json!({"checkpoint": {"action": "create", "label": format!("label {tok}"), "files": Tool::ckpt_files(tok, false)}}).to_string(),
+            Tool::CkptRewind => json!({"checkpoint": {"action": "rewind", "id": ckpt_id.unwrap_or("missing")}}).to_string(),
+            _ => json!({"tool": self.name(), "args": self.args(tok, trace)}).to_string(),
+        }
     }
     fn name(&self) -> &str {
         match self {
@@ -48,6 +71,8 @@ impl Tool {
             Tool::Read => "read",
             Tool::Ls => "ls",
             Tool::Grep => "grep",
+            Tool::CkptCreate => "checkpoint_create",
+            Tool::CkptRewind => "checkpoint_rewind",
         }
     }
     fn args(&self, tok: &str, trace: &str) -> Value {
@@ -58,6 +83,7 @@ impl Tool {
             Tool::Read => json!({"path": "seed.txt", "max_bytes": 4096}),
             Tool::Ls => json!({"path": "."}),
             Tool::Grep => json!({"pattern": "seed"}),
+            Tool::CkptCreate | Tool::CkptRewind => json!({}),
         }
     }
 }
@@ -128,7 +154,23 @@ pub fn generate(run_seed: u64, _tier: Tier) -> Scenario {
     if rng.chance(1, 2) {
         rules.push(gates::HoldRule { point: "session_emit:before_record".into(), nth: rng.below(30), release: gates::Release::AfterMs(rng.range(40, 150)) });
     }
-    Scenario { actors, plan: Plan { rules, random }, probe, workers: if rng.chance(1, 3) { 3 } else { 0 } }
+    let workers = if rng.chance(1, 3) { 3 } else { 0 };
+    // checkpoint envelopes (own sub-stream, so the draws above are what they were before these
+    // actors existed): create through a thread post or a thread-less session, rewind through a
+    // thread-less session
+    let mut ck = Rng::derive(run_seed, "c11:checkpoints");
+    if ck.chance(1, 2) {
+        for _ in 0..ck.range(1, 2) {
+            let delay = ck.below(30);
+            let a = match ck.below(4) {
+                0 => Actor::ToolPost { tool: Tool::CkptCreate },
+                1 => Actor::SessionTool { tool: Tool::CkptCreate },
+                _ => Actor::SessionTool { tool: Tool::CkptRewind },
+            };
+            actors.push((delay, a));
+        }
+    }
+    Scenario { actors, plan: Plan { rules, random }, probe, workers }
 }
 
 // ---------------------------------------------------------------------------------------------
@@ -296,6 +338,43 @@ fn run(sc: &Scenario, engine: &Engine, trace: &Path, gate: &Path, actor_tokens: 
     let mut plain_sessions: Vec<String> = Vec::new();
     let mut tasks: Vec<(String, Option<u64>, Instant, bool)> = Vec::new();
 
+    // --- preparation for checkpoint actors, before anything is observed: the files a create covers;
+    // for a rewind the session it will run in, a checkpoint of that session over its own files
+    // (made through the daemon's checkpoint hook) and a later edit the rewind has to undo
+    let mut prepared_sessions: BTreeMap<usize, (String, String)> = BTreeMap::new();
+    for (i, (_, a)) in sc.actors.iter().enumerate() {
+        let (Actor::ToolPost { tool } | Actor::SessionTool { tool }) = a else {
+            continue;
+        };
+        let tok = &actor_tokens[i][0];
+        match tool {
+            Tool::CkptCreate => {
+                for (k, f) in Tool::ckpt_files(tok, false).iter().enumerate() {
+                    std::fs::write(engine.ws.join(f), vec![b'a' + k as u8; CKPT_FILE_BYTES]).map_err(|e| format!("seed file: {e}"))?;
+                }
+            }
+            Tool::CkptRewind => {
+                let files = Tool::ckpt_files(tok, true);
+                for (k, f) in files.iter().enumerate() {
+                    std::fs::write(engine.ws.join(f), vec![b'k' + k as u8; CKPT_FILE_BYTES]).map_err(|e| format!("seed file: {e}"))?;
+                }
+                let (st, v) = engine.call_json("POST", "/sessions", None)?;
+                if st != 201 {
+                    return Err(format!("create session: {st}"));
+                }
+                let sid = v["session_id"].as_str().unwrap_or("").to_string();
+                let hook = ripd::verif_api::WorkspaceCheckpointHook::new(engine.ws.clone()).map_err(|e| format!("hook: {e}"))?;
+                let rec = rip_tools::CheckpointHook::create(&hook, rip_tools::CheckpointRequest { session_id: sid.clone(), label: format!("prepared {tok}"), files: files.iter().map(std::path::PathBuf::from).collect(), auto: false, tool_name: None }).map_err(|e| format!("prepare checkpoint: {e}"))?;
+                for f in &files {
+                    std::fs::write(engine.ws.join(f), b"edited after the checkpoint\n").map_err(|e| format!("edit: {e}"))?;
+                }
+                prepared_sessions.insert(i, (sid, rec.id));
+            }
+            _ => {}
+        }
+    }
+    FS_LOG.lock().unwrap().clear();
+
     // --- optional probe: a gated mutation must not block read-only tools
     let mut probe_tok: Option<String> = None;
     if let Some(ro) = &sc.probe {
@@ -339,7 +418,7 @@ fn run(sc: &Scenario, engine: &Engine, trace: &Path, gate: &Path, actor_tokens: 
             match &sc.actors[i].1 {
                 Actor::ToolPost { tool } => {
                     let tok = &actor_tokens[i][0];
-                    let content = json!({"tool": tool.name(), "args": tool.args(tok, &trace_s)}).to_string();
+                    let content = tool.envelope(tok, &trace_s, None);
                     let (st, v) = engine.call_json("POST", &format!("/threads/{tid}/messages"), Some(json!({"content": content})))?;
                     if st != 202 {
                         return Err(format!("post: {st}"));
@@ -357,12 +436,17 @@ fn run(sc: &Scenario, engine: &Engine, trace: &Path, gate: &Path, actor_tokens: 
                 }
                 Actor::SessionTool { tool } => {
                     let tok = &actor_tokens[i][0];
-                    let (st, v) = engine.call_json("POST", "/sessions", None)?;
-                    if st != 201 {
-                        return Err(format!("create session: {st}"));
-                    }
-                    let sid = v["session_id"].as_str().unwrap_or("").to_string();
-                    let (st, _) = engine.call("POST", &format!("/sessions/{sid}/input"), Some(json!({"input": json!({"tool": tool.name(), "args": tool.args(tok, &trace_s)}).to_string()})))?;
+                    let (sid, ckpt) = match prepared_sessions.get(&i) {
+                        Some((sid, ckpt)) => (sid.clone(), Some(ckpt.clone())),
+                        None => {
+                            let (st, v) = engine.call_json("POST", "/sessions", None)?;
+                            if st != 201 {
+                                return Err(format!("create session: {st}"));
+                            }
+                            (v["session_id"].as_str().unwrap_or("").to_string(), None)
+                        }
+                    };
+                    let (st, _) = engine.call("POST", &format!("/sessions/{sid}/input"), Some(json!({"input": tool.envelope(tok, &trace_s, ckpt.as_deref())})))?;
                     if st != 202 {
                         return Err(format!("input: {st}"));
                     }
@@ -437,6 +521,16 @@ fn run(sc: &Scenario, engine: &Engine, trace: &Path, gate: &Path, actor_tokens: 
                     execs.push(Exec { tok: tok.clone(), what: name.clone(), begin: *b0, end: e.first().copied() });
                 }
             }
+            Tool::CkptCreate | Tool::CkptRewind => {
+                // every effect on a path that carries one of this command's file names: the copies into
+                // the checkpoint store (create; rewind's own safety snapshot) and the restored files
+                let needle = format!("{}{tok}_", if *tool == Tool::CkptRewind { "rw" } else { "ck" });
+                let ts: Vec<f64> = fs.iter().filter(|(_, p)| p.contains(&needle)).map(|x| x.0).collect();
+                if let (Some(a), Some(b)) = (ts.iter().cloned().reduce(f64::min), ts.iter().cloned().reduce(f64::max)) {
+                    execs.push(Exec { tok: tok.clone(), what: tool.name().to_string(), begin: a, end: Some(b) });
+                    stats.bump(&format!("checkpoint_commands_observed:{}", tool.name()), 1);
+                }
+            }
             Tool::Write | Tool::Patch => {
                 let needle = format!("{}{tok}.txt", if *tool == Tool::Write { "w" } else { "p" });
                 let ts: Vec<f64> = fs.iter().filter(|(_, p)| p.contains(&needle)).map(|x| x.0).collect();
@@ -472,7 +566,7 @@ fn run(sc: &Scenario, engine: &Engine, trace: &Path, gate: &Path, actor_tokens: 
     let t = truth.stream("continuity", &tid);
     let mut frame_order: Vec<String> = Vec::new();
     for (tok, (_actor, tool, attached)) in toks.iter() {
-        if !*attached || !tool.mutating() {
+        if !*attached || !tool.yields_side_effects() {
             continue;
         }
         // the call's tool_started frame carries the token in its arguments
@@ -616,7 +710,7 @@ impl Check for C11 {
     fn assumptions(&self) -> Vec<String> {
         vec![
             "real-time engine simulation: an overlap or a reordering is reported only when it was actually observed (sound), and whether a defective lock scope is exposed in a given run depends on real task timing, helped by the seeded holds, work durations and start offsets".into(),
-            "checkpoint create/rewind envelopes and PTY tasks are not among the actors; a cancelled task has no end marker and is only checked as the later of a pair".into(),
+            "PTY tasks are not among the actors; a cancelled task has no end marker and is only checked as the later of a pair; checkpoint create / rewind commands take part in the overlap clause only (they are not tool calls and have no side-effects frame); a rewind runs in a thread-less session because a checkpoint belongs to the session that made it (the harness prepares that checkpoint through the daemon's checkpoint hook before anything is observed)".into(),
             "timestamps of shell markers (bash EPOCHREALTIME) and in-process effects (CLOCK_REALTIME) come from the same machine clock".into(),
         ]
     }
